@@ -296,7 +296,9 @@ pub fn extreme_marginal(rng: &mut Rng, g: &GraphSpec) -> Option<(Vec<f64>, f64)>
         let ci = rng.below(cons.len().saturating_sub(1).max(1));
         let c = &cons[ci];
         let v: f64 = c.a.iter().zip(&g.weights).map(|(a, x)| a * x).sum::<f64>() - c.b;
-        let k = *rng.pick(&[20, 30, 36, 40, 44, 50]);
+        // every weight stays a multiple of 2^-44 below 16, so that all partial sums the library
+        // forms are exact in f64 (the graph the library sees is the graph the oracle sees)
+        let k = *rng.pick(&[20, 30, 36, 40, 44]);
         let t = 2f64.powi(-k);
         if !(v > t) {
             continue;
@@ -309,6 +311,10 @@ pub fn extreme_marginal(rng: &mut Rng, g: &GraphSpec) -> Option<(Vec<f64>, f64)>
         let mut w = g.weights.clone();
         w[e] -= c.a[e] * (v - t);
         if !(w[e] > 0.0) {
+            continue;
+        }
+        let exact_grid = w.iter().all(|x| (x * 2f64.powi(44)).fract() == 0.0) && w.iter().sum::<f64>() < 16.0;
+        if !exact_grid {
             continue;
         }
         let g2 = GraphSpec { weights: w.clone(), ..g.clone() };
